@@ -28,11 +28,15 @@ import (
 )
 
 type Op struct {
-	Kind   string // req | adv | script
+	Kind   string // req | adv | script | restart | par (the next N req ops are sent concurrently)
 	Req    Req
 	Dt     int64
+	N      int
 	Script []HostScript
 }
+
+// requests of a "par" group carry this header with a distinct value each: deliveries are attributed by it
+const parHeader = "X-Hx-Par"
 
 type CacheCase struct {
 	Secrets *[]string
@@ -91,6 +95,8 @@ func (c cacheCase) Sx() sx.V {
 			ops = append(ops, sx.L(sx.S("adv"), sx.I(op.Dt)))
 		case "restart":
 			ops = append(ops, sx.L(sx.S("restart")))
+		case "par":
+			ops = append(ops, sx.L(sx.S("par"), sx.I(int64(op.N))))
 		case "script":
 			ops = append(ops, sx.L(sx.S("script"), scriptSx(op.Script)))
 			for _, hs := range op.Script {
@@ -140,6 +146,8 @@ func cacheCaseFromSx(v sx.V) CacheCase {
 			c.Ops = append(c.Ops, Op{Kind: "adv", Dt: o.N(1).Int()})
 		case "restart":
 			c.Ops = append(c.Ops, Op{Kind: "restart"})
+		case "par":
+			c.Ops = append(c.Ops, Op{Kind: "par", N: int(o.N(1).Int())})
 		case "script":
 			c.Ops = append(c.Ops, Op{Kind: "script", Script: scriptFromSx(o.N(1))})
 		}
@@ -293,8 +301,65 @@ func (c cacheCase) Run() (sx.V, error) {
 	start()
 	defer func() { ts.Close() }()
 	var outs []sx.V
-	for _, op := range cc.Ops {
+	for oi := 0; oi < len(cc.Ops); oi++ {
+		op := cc.Ops[oi]
 		switch op.Kind {
+		case "par":
+			// the next N requests at once, released together; each observation is assembled as if the request
+			// had run alone: its own client response and the deliveries that carry its marker
+			var group []Req
+			for j := oi + 1; j < len(cc.Ops) && len(group) < op.N && cc.Ops[j].Kind == "req"; j++ {
+				group = append(group, cc.Ops[j].Req)
+			}
+			oi += len(group)
+			perf.mu.Lock()
+			perf.log = nil
+			for _, q := range group {
+				for _, kv := range q.Hdrs {
+					perf.sent[kv.V] = true
+				}
+			}
+			perf.mu.Unlock()
+			obs := make([]ClientObs, len(group))
+			errs := make([]error, len(group))
+			var wg sync.WaitGroup
+			gate := make(chan struct{})
+			for gi := range group {
+				wg.Add(1)
+				go func(gi int) {
+					defer wg.Done()
+					<-gate
+					obs[gi], errs[gi] = rawRequest(ts.Listener.Addr().String(), group[gi])
+				}(gi)
+			}
+			close(gate)
+			wg.Wait()
+			for _, e := range errs {
+				if e != nil {
+					return sx.L(), e
+				}
+			}
+			if !caching.VerifWaitIdle(cache, 5*time.Second) {
+				return sx.L(), fmt.Errorf("cache keys still locked 5 s after the requests completed")
+			}
+			perf.mu.Lock()
+			log := append([]Delivery{}, perf.log...)
+			perf.mu.Unlock()
+			for gi, q := range group {
+				mark := ""
+				for _, kv := range q.Hdrs {
+					if kv.K == parHeader {
+						mark = kv.V
+					}
+				}
+				var mine []Delivery
+				for _, d := range log {
+					if d.Hdrs.Get(parHeader) == mark {
+						mine = append(mine, d)
+					}
+				}
+				outs = append(outs, sx.L(obs[gi].sx(), deliveriesSx(mine, perf.sent), sx.L()))
+			}
 		case "adv":
 			mu.Lock()
 			offset += op.Dt
